@@ -5,10 +5,12 @@ mkdir -p $work/verif
 (cd /verif && cp -r pyvc contracts spec replay bounded tools check known_findings.json \
    expected_obligations.json properties.jsonl $work/verif/)
 mkdir -p $work/verif/evidence $work/verif/replays
+# snapshot of /repo as it is now: later commits to /repo do not disturb a running sweep
+mkdir -p $work/base; cp -r /repo/file_builder $work/base/
 bad=0
 for d in ${BENIGN_ONLY:-/verif/benign/b*.diff}; do
   n=$(basename $d .diff)
-  rm -rf $work/repo; mkdir -p $work/repo; cp -r /repo/file_builder $work/repo/
+  rm -rf $work/repo; mkdir -p $work/repo; cp -r $work/base/file_builder $work/repo/
   (cd $work/repo && patch -p1 -s < $d) || { echo "$n APPLY-FAILED"; bad=1; continue; }
   res=""
   for pid in C01 C02 C03 C04 C05 C06 C07 C08 C10 C11 C12 C13 C14 C15 C16 C17 C18; do
